@@ -416,6 +416,21 @@ class Interp(object):
                 state['senv'][st.target.id] = fold_consts(new)
                 return True
             return False
+        if isinstance(st, ast.Assign) and len(st.targets) == 1 and isinstance(st.targets[0], (ast.Tuple, ast.List)) and \
+                all(isinstance(t, ast.Name) for t in st.targets[0].elts):
+            # a, b = <pure value>: each name stands for its component
+            v2 = fold_consts(self.subst(st.value, state))
+            if not self.pure(v2):
+                return False
+            names = [t.id for t in st.targets[0].elts]
+            self.kill(names, state)
+            if isinstance(v2, (ast.Tuple, ast.List)) and len(v2.elts) == len(names):
+                parts = list(v2.elts)
+            else:
+                parts = [ast.copy_location(ast.Subscript(value=v2, slice=ast.Constant(value=k), ctx=ast.Load()), st) for k in range(len(names))]
+            for n_, p_ in zip(names, parts):
+                state.setdefault('senv', {})[n_] = p_
+            return True
         if not (isinstance(st, ast.Assign) and len(st.targets) == 1 and isinstance(st.targets[0], ast.Name)):
             return False
         name, value = st.targets[0].id, st.value
